@@ -9,6 +9,12 @@ pub static MAXREQ: AtomicU64 = AtomicU64::new(0);
 pub static TOTAL: AtomicU64 = AtomicU64::new(0);
 /// requests above this size are refused (the process then aborts like on a real allocation failure)
 pub const REFUSE_ABOVE: u64 = 6 << 30;
+/// allocation-failure injection (af.rs): when non-zero, every request above this many bytes is refused
+pub static LIMIT: AtomicU64 = AtomicU64::new(0);
+fn refused(size: usize) -> bool {
+    let l = LIMIT.load(Relaxed);
+    size as u64 > REFUSE_ABOVE || (l != 0 && size as u64 > l)
+}
 
 fn note(size: usize) {
     if ON.load(Relaxed) {
@@ -21,7 +27,7 @@ fn note(size: usize) {
 unsafe impl GlobalAlloc for Counting {
     unsafe fn alloc(&self, l: Layout) -> *mut u8 {
         note(l.size());
-        if l.size() as u64 > REFUSE_ABOVE {
+        if refused(l.size()) {
             return std::ptr::null_mut();
         }
         System.alloc(l)
@@ -31,7 +37,7 @@ unsafe impl GlobalAlloc for Counting {
     }
     unsafe fn realloc(&self, p: *mut u8, l: Layout, new: usize) -> *mut u8 {
         note(new);
-        if new as u64 > REFUSE_ABOVE {
+        if refused(new) {
             return std::ptr::null_mut();
         }
         System.realloc(p, l, new)
